@@ -57,6 +57,8 @@ fn show_meta_v(m: &HashMap<String, String>) -> String {
 }
 
 pub struct Built {
+    /// world=rl: the real RateLimiter under a virtual clock that only `adv` ops move
+    pub rl: Option<kyrodb_engine::RateLimiter>,
     pub srv: Option<crate::srvinc::drive::Srv>,
     pub engine: Arc<TieredEngine>,
     _dir: Option<tempfile::TempDir>,
@@ -85,19 +87,52 @@ pub fn build(persist: bool, snap: usize, rot: u64) -> Built {
         config,
     )
     .expect("engine");
-    Built { srv: None, engine: Arc::new(engine), _dir: dir }
+    Built { rl: None, srv: None, engine: Arc::new(engine), _dir: dir }
 }
 
 /// world=srv: the real RPC handlers (`srvinc.rs`) over a fresh in-memory engine
 pub fn build_srv(limits: &[usize]) -> Built {
     let srv = crate::srvinc::drive::build(limits);
     let engine = crate::srvinc::drive::engine_of(&srv);
-    Built { srv: Some(srv), engine, _dir: None }
+    Built { rl: None, srv: Some(srv), engine, _dir: None }
+}
+
+/// world=rl (C19): `global=<qps|->`
+pub fn build_rl(global: Option<u32>) -> Built {
+    use std::sync::atomic::Ordering;
+    crate::shim::VCLOCK_NOW.store(1_000_000_000_000, Ordering::SeqCst);
+    crate::shim::VCLOCK_TICK.store(0, Ordering::SeqCst);
+    crate::shim::VCLOCK_ON.store(true, Ordering::SeqCst);
+    let mut b = build(false, 0, 0);
+    b.rl = Some(kyrodb_engine::RateLimiter::new_with_global(global));
+    b
 }
 
 const SRV_WARMUP: &[&str] = &["sins:0:90:9", "sq:0:90", "sum:0:90:8", "sdel:0:90", "sins:0:91:7", "sbd:0:91,92", "sdel:0:93"];
 
 fn apply_any(b: &Built, op: &str) -> String {
+    if let Some(rl) = &b.rl {
+        use std::sync::atomic::Ordering;
+        let p: Vec<&str> = op.split(':').collect();
+        return match p[0] {
+            // rc:<tenant>:<qps>  -> admitted?@virtual-ns-before,virtual-ns-after
+            "rc" => {
+                let t0 = crate::shim::VCLOCK_NOW.load(Ordering::SeqCst);
+                let r = rl.check_limit(p.get(1).copied().unwrap_or("a"), p.get(2).and_then(|x| x.parse().ok()).unwrap_or(1));
+                let t1 = crate::shim::VCLOCK_NOW.load(Ordering::SeqCst);
+                format!("{}/{}/{}", r, t0, t1)
+            }
+            // adv:<ms>  the only thing that moves the clock
+            "adv" => {
+                let ms: u64 = p.get(1).and_then(|x| x.parse().ok()).unwrap_or(0);
+                static CLOCK_LOCK: parking_lot::Mutex<()> = parking_lot::const_mutex(());
+                let _g = CLOCK_LOCK.lock();          // a scheduling point of its own
+                crate::shim::VCLOCK_NOW.fetch_add(ms * 1_000_000, Ordering::SeqCst);
+                "ok".into()
+            }
+            _ => "bad-op".into(),
+        };
+    }
     match (&b.srv, op.starts_with('s') && op != "snap" && op != "stats") {
         (Some(s), true) => crate::srvinc::drive::apply(s, op),
         _ => apply(&b.engine, op),
@@ -185,6 +220,7 @@ pub fn apply(e: &TieredEngine, op: &str) -> String {
 }
 
 struct Program {
+    rl: Option<Option<u32>>,
     limits: Option<Vec<usize>>,
     threads: Vec<Vec<String>>,
     persist: bool,
@@ -202,7 +238,10 @@ fn parse_program(fs: &Fields) -> Program {
     }
     let limits = field(fs, "limits").map(|s| s.split(',').filter_map(|x| x.parse().ok()).collect::<Vec<usize>>());
     let default_warm: Vec<String> = if limits.is_some() { vec![] } else { vec!["ins:1:1".into(), "ins:2:2".into(), "q:1".into(), "flush".into(), "ins:2:3".into()] };
+    let rl = field(fs, "rl").map(|g| g.parse::<u32>().ok());
+    let default_warm: Vec<String> = if rl.is_some() { vec![] } else { default_warm };
     Program {
+        rl,
         limits,
         threads,
         persist: boolean(fs, "persist").unwrap_or(false),
@@ -287,9 +326,10 @@ pub fn run() {
                 let mut keep: Vec<Arc<Built>> = vec![];
                 let mut finals: BTreeSet<String> = BTreeSet::new();
                 let mut one = |prefix: Vec<usize>, rnd: Option<u64>| -> (sched::Outcome, String) {
-                    let built = Arc::new(match &p.limits {
-                        Some(l) => build_srv(l),
-                        None => build(p.persist, p.snap, p.rot),
+                    let built = Arc::new(match (&p.rl, &p.limits) {
+                        (Some(g), _) => build_rl(*g),
+                        (None, Some(l)) => build_srv(l),
+                        (None, None) => build(p.persist, p.snap, p.rot),
                     });
                     // deterministic warm-up: names every lock by first acquisition and leaves documents 1 and 2 behind
                     sched::begin_naming();
@@ -307,7 +347,10 @@ pub fn run() {
                     let names = sched::end_naming();
                     let hist: Hist = Arc::new(Mutex::new(vec![]));
                     let out = sched::run_named(bodies(&p, &built, &hist), prefix, rnd, &names);
-                    let fin = if out.deadlock.is_none() && built.srv.is_some() {
+                    let fin = if built.rl.is_some() {
+                        crate::shim::VCLOCK_ON.store(false, std::sync::atomic::Ordering::SeqCst);
+                        "-".to_string()
+                    } else if out.deadlock.is_none() && built.srv.is_some() {
                         crate::srvinc::drive::final_state(built.srv.as_ref().unwrap())
                     } else if out.deadlock.is_none() {
                         // final state as a sequential observer sees it
